@@ -471,6 +471,7 @@ fn main() {
             reg_enum!(jobs, "gcd_limb_alphabet", enum_alphabet_pairs, body; [65, 127, 128, 129, 190, 192]);
             w_all!(reg_gen!(jobs, "gcd", 3000, strat, body;));
             reg_gen!(jobs, "gcd", 500, strat, body; [1024]);
+            reg_gen!(jobs, "gcd", 150, strat, body; [2112]);
             jobs.gen("prefix", 0, 100_000, || strat_prefix(0), body_prefix::<0, 0>);
             jobs.gen("from_u64", 0, 40_000, || strat_u64(0), body_u64::<0, 0>);
         },
